@@ -13,10 +13,12 @@ def explore(res, scale=1, seed=None):
     # sequences of blocks (with zero-row header-shaped blocks in between) into one set of targets, typed and inferred:
     # consistency after every block (direct oracle)
     colfam.run_family(res, "c06seq", 400 * scale, seed, builds=("default",), sample=False)
+    # hostile column type strings in block headers, through automatic inference and every adopting target (direct oracle)
+    colfam.run_family(res, "c06type", 6000 * scale, seed, builds=("default",), sample=False)
     colfam.run_family(res, "c06msg", BUDGET[res.tier] * scale // 3, seed, builds=("default",), glue="Msg", gluemod="GlueMsg")
     res.extra["rule"] = ("field-targeted mutants of valid column encodings of the catalogue (8-byte windows set to boundary and huge "
                          "values, single bytes, bit flips, spliced over-long varints, splices between columns, other declared row "
-                         "counts) decoded through typed columns in both builds, and mutated protocol messages; observation: ok with "
+                         "counts) decoded through typed columns in both builds, mutated protocol messages, and blocks whose column type string is malformed (C19's generator plus enum definitions and deep nesting) decoded through inference and through type-adopting targets; observation: ok with "
                          "contents + Rows() + every Row(i) readable | err | crash; non-trivial = distinct (case kind, class) or distinct accepted input")
     res.assumptions = [
         "resident memory and stack depth are runtime facts: observed under an address-space limit, not proved (partial)",
